@@ -6,7 +6,7 @@ From Coq Require Import List NArith Bool String.
 From TG.Gen Require Import GenTokens GenAst GenGrammar.
 From TG.Model Require Import Chars Lexer Prep Tree ParserPrims GInterp AstAccess CoreAst AstToCore CoreParts ShapeChk Pipeline.
 From TG.Model Require Import SymbolMap SymbolWf BridgeToks.
-From TG.Proofs Require Import BridgeProofs BridgeText ShapeSound PipelineProofs BridgeSymbol IdNonEmpty.
+From TG.Proofs Require Import BridgeProofs BridgeText ShapeSound PipelineProofs BridgeSymbol IdNonEmpty BridgeLinear BridgeNoDup.
 Import ListNotations.
 Close Scope string_scope.
 Open Scope N_scope.
@@ -105,6 +105,26 @@ Check Bridge_id_tokens_nonempty : forall p entry fuel txt t errs st,
   parse_with fuel p entry txt = ParseOk t errs st ->
   forall lo hi tx, In (S_Id, lo, hi, tx) (leaves t) -> tx <> [] /\ lo < hi.
 Print Assumptions Bridge_id_tokens_nonempty.
+
+(** the bridge is LINEAR: the identifier occurrences of the CoreAst of a parsed file have pairwise different ranges
+    (every Identifier node is visited at most once; different accessor fields select different children: a check on
+    the generated table, BridgeLinear.field_nonoverlap); per file of every workspace of the pipeline *)
+Theorem Bridge_idents_nodup : forall fuel file links txt t errs st ss,
+  parse_with fuel grammar_prog grammar_entry txt = ParseOk t errs st ->
+  core_of_tree file links t = Ok ss -> NoDup (map i_rng (file_idents ss)).
+Proof. exact core_idents_nodup. Qed.
+Check Bridge_idents_nodup : forall fuel file links txt t errs st ss,
+  parse_with fuel grammar_prog grammar_entry txt = ParseOk t errs st ->
+  core_of_tree file links t = Ok ss -> NoDup (map i_rng (file_idents ss)).
+Print Assumptions Bridge_idents_nodup.
+Theorem Bridge_pipeline_idents_nodup : forall pfuel cfuel files root a w,
+  analyze pfuel cfuel files root = Some a -> an_core a = Ok w ->
+  forall k fl, nth_error (ws_files w) k = Some fl -> NoDup (map i_rng (file_idents fl)).
+Proof. exact pipeline_idents_nodup. Qed.
+Check Bridge_pipeline_idents_nodup : forall pfuel cfuel files root a w,
+  analyze pfuel cfuel files root = Some a -> an_core a = Ok w ->
+  forall k fl, nth_error (ws_files w) k = Some fl -> NoDup (map i_rng (file_idents fl)).
+Print Assumptions Bridge_pipeline_idents_nodup.
 
 (** the side conditions of group symmap (model/SymbolWf.v) on the MODEL side: the identifier-token list of ANY trees
     satisfies [toks_sorted] (hypothesis of C06_coherent / C06_total / C03) *)
